@@ -116,7 +116,7 @@ def ossl_ctx(c, server_side):
         ctx.set_ecdh_curve("secp384r1")
     if server_side:
         from ..ossl import dh_params_file
-        ctx.load_dh_params(dh_params_file(os.path.join(env.VERIF, "out", "C07")))
+        ctx.load_dh_params(dh_params_file(os.path.join(os.environ.get("VERIF_OUT") or os.path.join(env.VERIF, "out"), "C07")))
     if server_side and c["cred"] != "none":
         cf, kf = CRED_FILES[c["cred"]]
         ctx.load_cert_chain(os.path.join(TESTS, cf), os.path.join(TESTS, kf))
